@@ -268,6 +268,9 @@ def check(eng, res):
     res.floor("R-MASS-ALGEBRA", n, 3)
     remainder(eng, res)
     propagate(eng, res)
+    from ..memo import memo_rules
+
+    memo_rules(eng, res, only_classes=["Mixture", "System", "Molecule"], only_modules=["mixture", "system", "molecule"])
     roles = [r for r in c15.ROLES if r[0].startswith(("mix-", "sys-remainder", "sys-sum", "sys-inconsistent"))]
     k = c15.check_roles(eng, res, roles)
     res.floor("R-GUARD-INVENTORY", k, 8)
